@@ -11,7 +11,7 @@ EXPLANATION = ("CoapResponse::new is evaluated abstractly once per message type 
                "token, options empty, payload empty; the set of request fields ever materialised (read) must be within "
                "{type bits byte, message id, token}; from_packet wires response/message/source; apply_from_error "
                "returns true only with a response and a code, writes only code / Content-Format / payload on that path "
-               "and nothing otherwise")
+               "and nothing otherwise; apply_from_error reports failure only without a reply or without a code (third entry shape: reply prepared, any code)")
 NOT_DECIDED = "Not decided: nothing material."
 ASSUMPTIONS = ["request token of 0-8 bytes (the property's stated domain; set_token asserts a 4-bit length)"]
 
